@@ -39,8 +39,10 @@ theorem attemptAddition_heap (r : Nat) (s : State) : HeapStatic s.heap (attemptA
   unfold attemptAddition
   simp only []
   split
-  · rw [hsp.1]; exact h1
-  · simp only []; rw [hsp.1]; exact h1
+  · exact h1
+  · split
+    · rw [hsp.1]; exact h1
+    · simp only []; rw [hsp.1]; exact h1
 
 theorem attemptDeletion_heap (r : Nat) (s : State) : HeapStatic s.heap (attemptDeletion r s).2.heap := by
   unfold attemptDeletion
